@@ -1,4 +1,557 @@
+/-
+  C13 — real feasibility sets behave as sets of reals in normal form.
+  Interval comparison classifies every pair and returns the intersection; the list sweep computes
+  exactly the intersection of the denoted sets; membership agrees with the denoted set.
+-/
 import LP.Model.FSet
+import Mathlib.Algebra.Order.Field.Basic
+import Mathlib.Data.Rat.Cast.Order
+import Mathlib.Tactic.Linarith
+import Mathlib.Tactic.Push
+import Mathlib.Data.Real.Basic
+
+set_option linter.unusedSectionVars false
+
 namespace LP
-theorem C13_placeholder : True := trivial
+
+variable {α : Type*} [Field α] [LinearOrder α] [IsStrictOrderedRing α]
+
+/-! ### end points and bounds -/
+
+/-- `x` respects the lower bound `(e, open)` -/
+def lowerOK (e : EP) (o : Bool) (x : α) : Prop :=
+  match e with
+  | .ninf => True
+  | .fin q => if o then (q : α) < x else (q : α) ≤ x
+  | .pinf => False
+
+def upperOK (e : EP) (o : Bool) (x : α) : Prop :=
+  match e with
+  | .ninf => False
+  | .fin q => if o then x < (q : α) else x ≤ (q : α)
+  | .pinf => True
+
+namespace VI
+
+/-- the denoted set -/
+def Mem (I : VI) (x : α) : Prop := lowerOK I.lower I.aOpen x ∧ upperOK I.upper I.bOpen x
+
+/-- well-formed C object -/
+def WF (I : VI) : Prop :=
+  if I.isPoint then (∃ q, I.a = .fin q) ∧ I.aOpen = false ∧ I.bOpen = false
+  else EP.cmp I.a I.b < 0 ∧ (I.a = .ninf → I.aOpen = true) ∧ (I.b = .pinf → I.bOpen = true) ∧ I.a ≠ .pinf ∧ I.b ≠ .ninf
+
+end VI
+
+theorem EP.cmp_fin (a b : Rat) : EP.cmp (.fin a) (.fin b) = cmpQ a b := rfl
+
+theorem cmpQ_lt (a b : Rat) : cmpQ a b < 0 ↔ a < b := by
+  unfold cmpQ; split_ifs with h1 h2 <;> simp_all
+theorem cmpQ_gt (a b : Rat) : cmpQ a b > 0 ↔ b < a := by
+  unfold cmpQ; split_ifs with h1 h2 <;> simp_all
+  · exact le_of_lt h1
+theorem cmpQ_eq (a b : Rat) : cmpQ a b = 0 ↔ a = b := by
+  unfold cmpQ; split_ifs with h1 h2 <;> simp_all
+  · exact ne_of_lt h1
+  · exact ne_of_gt h2
+  · exact le_antisymm h2 h1
+
+/-- three-way comparison of two bounds `(value, open)`; `dir = -1` for upper bounds (open is smaller), `+1` for lower bounds -/
+def cmpBound (dir : Int) (u1 : EP) (o1 : Bool) (u2 : EP) (o2 : Bool) : Int :=
+  let c := EP.cmp u1 u2
+  if c ≠ 0 then c else if o1 = o2 then 0 else if o1 then dir else -dir
+
+theorem cmpUpper_eq (I1 I2 : VI) : VI.cmpUpper I1 I2 = cmpBound (-1) I1.upper I1.bOpen I2.upper I2.bOpen := by
+  unfold VI.cmpUpper cmpBound; simp
+theorem cmpLower_eq (I1 I2 : VI) : VI.cmpLower I1 I2 = cmpBound 1 I1.lower I1.aOpen I2.lower I2.aOpen := by
+  unfold VI.cmpLower cmpBound; simp
+
+theorem cmpBound_fin (dir : Int) (hd : dir = 1 ∨ dir = -1) (a b : Rat) (o1 o2 : Bool) :
+    (cmpBound dir (.fin a) o1 (.fin b) o2 < 0 ↔ a < b ∨ (a = b ∧ o1 ≠ o2 ∧ (if o1 then dir else -dir) < 0)) ∧
+    (cmpBound dir (.fin a) o1 (.fin b) o2 > 0 ↔ b < a ∨ (a = b ∧ o1 ≠ o2 ∧ (if o1 then dir else -dir) > 0)) ∧
+    (cmpBound dir (.fin a) o1 (.fin b) o2 = 0 ↔ a = b ∧ o1 = o2) := by
+  unfold cmpBound
+  simp only [EP.cmp_fin]
+  have h1 := cmpQ_lt a b
+  have h2 := cmpQ_gt a b
+  have h3 := cmpQ_eq a b
+  rcases lt_trichotomy a b with h | h | h
+  · have c1 : cmpQ a b < 0 := h1.2 h
+    have c2 : cmpQ a b ≠ 0 := ne_of_lt c1
+    simp only [c2, ne_eq, not_false_eq_true, if_true]
+    refine ⟨⟨fun _ => Or.inl h, fun _ => c1⟩, ⟨fun hh => by omega, fun hh => ?_⟩, ⟨fun hh => hh.elim, fun hh => absurd hh.1 (ne_of_lt h)⟩⟩
+    rcases hh with hh | hh
+    · exact absurd hh (not_lt.2 h.le)
+    · exact absurd hh.1 (ne_of_lt h)
+  · subst h
+    have c0 : cmpQ a a = 0 := h3.2 rfl
+    simp only [c0, ne_eq, not_true_eq_false, if_false, lt_irrefl, false_or, true_and]
+    cases o1 <;> cases o2 <;> rcases hd with hd | hd <;> subst hd <;> simp
+  · have c1 : cmpQ a b > 0 := h2.2 h
+    have c2 : cmpQ a b ≠ 0 := ne_of_gt c1
+    simp only [c2, ne_eq, not_false_eq_true, if_true]
+    refine ⟨⟨fun hh => by omega, fun hh => ?_⟩, ⟨fun _ => Or.inl h, fun _ => c1⟩, ⟨fun hh => hh.elim, fun hh => absurd hh.1 (ne_of_gt h)⟩⟩
+    rcases hh with hh | hh
+    · exact absurd hh (not_lt.2 h.le)
+    · exact absurd hh.1 (ne_of_gt h)
+
+/-- order on upper bounds used by `lp_interval_cmp_upper_bounds`: semantic reading -/
+theorem cmpUpper_sem (I1 I2 : VI) :
+    (VI.cmpUpper I1 I2 ≤ 0 → ∀ x : α, upperOK I1.upper I1.bOpen x → upperOK I2.upper I2.bOpen x) ∧
+    (VI.cmpUpper I1 I2 ≥ 0 → ∀ x : α, upperOK I2.upper I2.bOpen x → upperOK I1.upper I1.bOpen x) := by
+  rw [cmpUpper_eq]
+  generalize I1.upper = u1
+  generalize I2.upper = u2
+  generalize I1.bOpen = o1
+  generalize I2.bOpen = o2
+  rcases u1 with _ | a | _ <;> rcases u2 with _ | b | _
+  · exact ⟨fun _ x hx => hx, fun _ x hx => hx⟩
+  · exact ⟨fun _ x hx => absurd hx id, fun h => by simp [cmpBound, EP.cmp] at h⟩
+  · exact ⟨fun _ x hx => absurd hx id, fun h => by simp [cmpBound, EP.cmp] at h⟩
+  · exact ⟨fun h => by simp [cmpBound, EP.cmp] at h, fun _ x hx => absurd hx id⟩
+  · obtain ⟨f1, f2, f3⟩ := cmpBound_fin (-1) (Or.inr rfl) a b o1 o2
+    constructor
+    · intro h x hx
+      rcases lt_or_eq_of_le h with h | h
+      · rcases f1.1 h with hab | ⟨hab, hne, hd⟩
+        · have hc : (a : α) < (b : α) := by exact_mod_cast hab
+          cases o1 <;> cases o2 <;> simp only [upperOK, Bool.false_eq_true, if_false, if_true] at hx ⊢ <;> linarith
+        · subst hab; cases o1 <;> cases o2 <;> simp_all [upperOK]
+          exact hx.le
+      · obtain ⟨hab, ho⟩ := f3.1 h
+        subst hab; subst ho; exact hx
+    · intro h x hx
+      rcases lt_or_eq_of_le h with h | h
+      · rcases f2.1 h with hab | ⟨hab, hne, hd⟩
+        · have hc : (b : α) < (a : α) := by exact_mod_cast hab
+          cases o1 <;> cases o2 <;> simp only [upperOK, Bool.false_eq_true, if_false, if_true] at hx ⊢ <;> linarith
+        · subst hab; cases o1 <;> cases o2 <;> simp_all [upperOK]
+          exact hx.le
+      · obtain ⟨hab, ho⟩ := f3.1 h.symm
+        subst hab; subst ho; exact hx
+  · exact ⟨fun _ x _ => trivial, fun h => by simp [cmpBound, EP.cmp] at h⟩
+  · exact ⟨fun h => by simp [cmpBound, EP.cmp] at h, fun _ x hx => absurd hx id⟩
+  · exact ⟨fun h => by simp [cmpBound, EP.cmp] at h, fun _ x _ => trivial⟩
+  · exact ⟨fun _ x hx => hx, fun _ x hx => hx⟩
+
+theorem cmpLower_sem (I1 I2 : VI) :
+    (VI.cmpLower I1 I2 ≥ 0 → ∀ x : α, lowerOK I1.lower I1.aOpen x → lowerOK I2.lower I2.aOpen x) ∧
+    (VI.cmpLower I1 I2 ≤ 0 → ∀ x : α, lowerOK I2.lower I2.aOpen x → lowerOK I1.lower I1.aOpen x) := by
+  rw [cmpLower_eq]
+  generalize I1.lower = u1
+  generalize I2.lower = u2
+  generalize I1.aOpen = o1
+  generalize I2.aOpen = o2
+  rcases u1 with _ | a | _ <;> rcases u2 with _ | b | _
+  · exact ⟨fun _ x hx => hx, fun _ x hx => hx⟩
+  · exact ⟨fun h => by simp [cmpBound, EP.cmp] at h, fun _ x _ => trivial⟩
+  · exact ⟨fun h => by simp [cmpBound, EP.cmp] at h, fun _ x _ => trivial⟩
+  · exact ⟨fun _ x _ => trivial, fun h => by simp [cmpBound, EP.cmp] at h⟩
+  · obtain ⟨f1, f2, f3⟩ := cmpBound_fin 1 (Or.inl rfl) a b o1 o2
+    constructor
+    · intro h x hx
+      rcases lt_or_eq_of_le h with h | h
+      · rcases f2.1 h with hab | ⟨hab, hne, hd⟩
+        · have hc : (b : α) < (a : α) := by exact_mod_cast hab
+          cases o1 <;> cases o2 <;> simp only [lowerOK, Bool.false_eq_true, if_false, if_true] at hx ⊢ <;> linarith
+        · subst hab; cases o1 <;> cases o2 <;> simp_all [lowerOK]
+          exact hx.le
+      · obtain ⟨hab, ho⟩ := f3.1 h.symm
+        subst hab; subst ho; exact hx
+    · intro h x hx
+      rcases lt_or_eq_of_le h with h | h
+      · rcases f1.1 h with hab | ⟨hab, hne, hd⟩
+        · have hc : (a : α) < (b : α) := by exact_mod_cast hab
+          cases o1 <;> cases o2 <;> simp only [lowerOK, Bool.false_eq_true, if_false, if_true] at hx ⊢ <;> linarith
+        · subst hab; cases o1 <;> cases o2 <;> simp_all [lowerOK]
+          exact hx.le
+      · obtain ⟨hab, ho⟩ := f3.1 h
+        subst hab; subst ho; exact hx
+  · exact ⟨fun h => by simp [cmpBound, EP.cmp] at h, fun _ x hx => absurd hx id⟩
+  · exact ⟨fun _ x hx => absurd hx id, fun h => by simp [cmpBound, EP.cmp] at h⟩
+  · exact ⟨fun _ x hx => absurd hx id, fun h => by simp [cmpBound, EP.cmp] at h⟩
+  · exact ⟨fun _ x hx => hx, fun _ x hx => hx⟩
+
+theorem EP.cmp_eq_zero (a b : EP) : EP.cmp a b = 0 ↔ a = b := by
+  cases a <;> cases b <;> simp [EP.cmp, cmpQ_eq]
+
+theorem EP.cmp_antisymm (a b : EP) : (EP.cmp a b > 0 ↔ EP.cmp b a < 0) := by
+  cases a <;> cases b <;> simp [EP.cmp, cmpQ_gt, cmpQ_lt]
+
+theorem bounds_disjoint (u l : EP) (ou ol : Bool)
+    (h : EP.cmp u l < 0 ∨ (EP.cmp u l = 0 ∧ (ou = true ∨ ol = true))) (x : α) :
+    ¬ (upperOK u ou x ∧ lowerOK l ol x) := by
+  rintro ⟨h1, h2⟩
+  rcases u with _ | a | _ <;> rcases l with _ | b | _ <;> simp only [upperOK, lowerOK] at h1 h2 <;>
+    (try exact h1) <;> (try exact h2) <;> (try (simp [EP.cmp] at h))
+  rcases h with h | ⟨h, ho⟩
+  · have hab : (a : α) < (b : α) := by exact_mod_cast (cmpQ_lt a b).1 h
+    cases ou <;> cases ol <;> simp only [Bool.false_eq_true, if_false, if_true] at h1 h2 <;> linarith
+  · have hab : a = b := (cmpQ_eq a b).1 h
+    subst hab
+    rcases ho with ho | ho <;> subst ho <;> cases ‹Bool› <;> simp only [Bool.false_eq_true, if_false, if_true] at h1 h2 <;> linarith
+
+namespace VI
+
+theorem mem_mk' (a b : EP) (ao bo : Bool) (x : α) : (mk' a ao b bo).Mem x ↔ lowerOK a ao x ∧ upperOK b bo x := by
+  simp [Mem, mk', lower, upper]
+
+theorem mem_construct (a b : EP) (ao bo : Bool) (h : EP.cmp a b ≠ 0) (x : α) :
+    (construct a ao b bo).Mem x ↔ lowerOK a ao x ∧ upperOK b bo x := by
+  unfold construct; rw [if_neg h]; exact mem_mk' a b ao bo x
+
+theorem mem_point (v : EP) (x : α) : (point v).Mem x ↔ lowerOK v false x ∧ upperOK v false x := by
+  simp [Mem, point, lower, upper]
+
+/-- does the comparison result say "upper bound of I1 below / equal / above that of I2" -/
+def ICmp.ubClass : ICmp → Int
+  | .ltNo | .ltWith | .ltWithI1 => -1
+  | .leqWithI2 | .eq | .geqWithI1 => 0
+  | .gtWithI2 | .gtWith | .gtNo => 1
+
+/-- what `C13_cmp` states about a result `(c, P)` -/
+def CmpSpec (I1 I2 : VI) (r : ICmp × Option VI) : Prop :=
+  (match r.2 with
+   | none => ∀ x : α, ¬ (I1.Mem x ∧ I2.Mem x)
+   | some p => ∀ x : α, p.Mem x ↔ (I1.Mem x ∧ I2.Mem x)) ∧
+  ((r.1 = .ltNo ∨ r.1 = .gtNo) ↔ r.2 = none)
+
+theorem cwiLt_spec (I1 I2 : VI) (hu : cmpUpper I1 I2 ≤ 0) (hl : cmpLower I1 I2 ≤ 0) :
+    CmpSpec (α := α) I1 I2 (cwiLt I1 I2) ∧ ICmp.ubClass (cwiLt I1 I2).1 = -1 := by
+  obtain ⟨u1, _⟩ := cmpUpper_sem (α := α) I1 I2
+  obtain ⟨_, l2⟩ := cmpLower_sem (α := α) I1 I2
+  -- the intersection is "lower bound of I2, upper bound of I1"
+  have key : ∀ x : α, (I1.Mem x ∧ I2.Mem x) ↔ (lowerOK I2.lower I2.aOpen x ∧ upperOK I1.upper I1.bOpen x) := by
+    intro x
+    exact ⟨fun h => ⟨h.2.1, h.1.2⟩, fun h => ⟨⟨l2 hl x h.1, h.2⟩, ⟨h.1, u1 hu x h.2⟩⟩⟩
+  unfold cwiLt
+  split_ifs with h1 h2 h3
+  · refine ⟨⟨?_, by simp⟩, rfl⟩
+    intro x hx
+    exact bounds_disjoint _ _ _ _ (Or.inr h1) x ⟨((key x).1 hx).2, ((key x).1 hx).1⟩
+  · refine ⟨⟨?_, by simp⟩, rfl⟩
+    intro x
+    have hc : I1.bOpen = false ∧ I2.aOpen = false := by
+      constructor <;> by_contra hh <;> exact h1 ⟨h2, by simp_all⟩
+    have he : I1.upper = I2.lower := (EP.cmp_eq_zero _ _).1 h2
+    rw [key x, mem_point]
+    show lowerOK I2.lower false x ∧ upperOK I2.lower false x ↔ _
+    rw [he, hc.1, hc.2]
+  · refine ⟨⟨?_, by simp⟩, rfl⟩
+    intro x hx
+    exact bounds_disjoint _ _ _ _ (Or.inl h3) x ⟨((key x).1 hx).2, ((key x).1 hx).1⟩
+  · refine ⟨⟨?_, by simp⟩, rfl⟩
+    intro x
+    have hne : EP.cmp I2.lower I1.upper ≠ 0 := by
+      intro h0; exact h2 ((EP.cmp_eq_zero _ _).2 ((EP.cmp_eq_zero _ _).1 h0).symm)
+    rw [mem_construct _ _ _ _ hne, key x]
+
+theorem cwiGt_spec (I1 I2 : VI) (hu : cmpUpper I1 I2 ≥ 0) (hl : cmpLower I1 I2 ≥ 0) :
+    CmpSpec (α := α) I1 I2 (cwiGt I1 I2) ∧ ICmp.ubClass (cwiGt I1 I2).1 = 1 := by
+  obtain ⟨_, u2⟩ := cmpUpper_sem (α := α) I1 I2
+  obtain ⟨l1, _⟩ := cmpLower_sem (α := α) I1 I2
+  have key : ∀ x : α, (I1.Mem x ∧ I2.Mem x) ↔ (lowerOK I1.lower I1.aOpen x ∧ upperOK I2.upper I2.bOpen x) := by
+    intro x
+    exact ⟨fun h => ⟨h.1.1, h.2.2⟩, fun h => ⟨⟨h.1, u2 hu x h.2⟩, ⟨l1 hl x h.1, h.2⟩⟩⟩
+  have dis : ∀ (hd : EP.cmp I1.lower I2.upper > 0 ∨ (EP.cmp I1.lower I2.upper = 0 ∧ (I1.aOpen = true ∨ I2.bOpen = true))) (x : α),
+      ¬ (I1.Mem x ∧ I2.Mem x) := by
+    intro hd x hx
+    have hk := (key x).1 hx
+    refine bounds_disjoint I2.upper I1.lower I2.bOpen I1.aOpen ?_ x ⟨hk.2, hk.1⟩
+    rcases hd with hd | hd
+    · exact Or.inl ((EP.cmp_antisymm _ _).1 hd)
+    · exact Or.inr ⟨(EP.cmp_eq_zero _ _).2 ((EP.cmp_eq_zero _ _).1 hd.1).symm, hd.2.symm⟩
+  unfold cwiGt
+  split_ifs with h1 h2 h3
+  · exact ⟨⟨dis (Or.inr h1), by simp⟩, rfl⟩
+  · refine ⟨⟨?_, by simp⟩, rfl⟩
+    intro x
+    have hc : I1.aOpen = false ∧ I2.bOpen = false := by
+      constructor <;> by_contra hh <;> exact h1 ⟨h2, by simp_all⟩
+    have he : I1.lower = I2.upper := (EP.cmp_eq_zero _ _).1 h2
+    rw [key x, mem_point]
+    show lowerOK I1.lower false x ∧ upperOK I1.lower false x ↔ _
+    rw [← he, hc.1, hc.2]
+  · refine ⟨⟨?_, by simp⟩, rfl⟩
+    intro x
+    rw [mem_construct _ _ _ _ h2, key x]
+  · refine ⟨⟨dis (Or.inl ?_), by simp⟩, rfl⟩
+    have := h2
+    omega
+
+/-- `lp_interval_cmp_with_intersect`: the interval returned denotes the intersection (none exactly when the
+    intervals are reported disjoint), and the result's name states the true relation of the upper bounds. -/
+theorem C13_cmp (I1 I2 : VI) :
+    CmpSpec (α := α) I1 I2 (cmpWithIntersect I1 I2) ∧
+    sgnI (cmpUpper I1 I2) = ICmp.ubClass (cmpWithIntersect I1 I2).1 := by
+  obtain ⟨u1, u2⟩ := cmpUpper_sem (α := α) I1 I2
+  obtain ⟨l1, l2⟩ := cmpLower_sem (α := α) I1 I2
+  have inI1 : cmpUpper I1 I2 ≤ 0 → cmpLower I1 I2 ≥ 0 → ∀ x : α, I1.Mem x ↔ (I1.Mem x ∧ I2.Mem x) := by
+    intro hu hl x
+    exact ⟨fun h => ⟨h, l1 hl x h.1, u1 hu x h.2⟩, fun h => h.1⟩
+  have inI2 : cmpUpper I1 I2 ≥ 0 → cmpLower I1 I2 ≤ 0 → ∀ x : α, I2.Mem x ↔ (I1.Mem x ∧ I2.Mem x) := by
+    intro hu hl x
+    exact ⟨fun h => ⟨⟨l2 hl x h.1, u2 hu x h.2⟩, h⟩, fun h => h.2⟩
+  have sg : ∀ z : Int, (z < 0 → sgnI z = -1) ∧ (z = 0 → sgnI z = 0) ∧ (z > 0 → sgnI z = 1) := by
+    intro z; unfold sgnI; refine ⟨fun h => ?_, fun h => ?_, fun h => ?_⟩ <;> split_ifs <;> omega
+  unfold cmpWithIntersect cwiCore
+  split_ifs with h1 h2 h3 h4 h5 h6 h7 h8
+  · exact ⟨⟨inI1 (by omega) (by omega), by simp⟩, (sg _).2.1 h1.1⟩
+  · exact ⟨⟨inI1 (by omega) (by omega), by simp⟩, (sg _).1 h2.1⟩
+  · exact ⟨⟨inI2 (by omega) (by omega), by simp⟩, (sg _).2.2 h3.1⟩
+  · exact ⟨⟨inI1 (by omega) (by omega), by simp⟩, (sg _).2.1 h4.1⟩
+  · exact ⟨⟨inI2 (by omega) (by omega), by simp⟩, (sg _).2.1 h5.1⟩
+  · exact ⟨⟨inI2 (by omega) (by omega), by simp⟩, (sg _).2.2 h6.2⟩
+  · exact ⟨⟨inI1 (by omega) (by omega), by simp⟩, (sg _).1 h7.2⟩
+  · have hl : cmpLower I1 I2 ≤ 0 := by
+      by_contra hc; push Not at hc; exact h2 ⟨h8, hc⟩
+    obtain ⟨a, b⟩ := cwiLt_spec (α := α) I1 I2 h8.le hl
+    exact ⟨a, by rw [b]; exact (sg _).1 h8⟩
+  · have hu : cmpUpper I1 I2 > 0 := by
+      by_contra hc
+      have : cmpUpper I1 I2 = 0 := by omega
+      rcases lt_trichotomy (cmpLower I1 I2) 0 with h | h | h
+      · exact h5 ⟨this, h⟩
+      · exact h1 ⟨this, h⟩
+      · exact h4 ⟨this, h⟩
+    have hl : cmpLower I1 I2 ≥ 0 := by
+      by_contra hc; push Not at hc; exact h3 ⟨hu, hc⟩
+    obtain ⟨a, b⟩ := cwiGt_spec (α := α) I1 I2 hu.le hl
+    exact ⟨a, by rw [b]; exact (sg _).2.2 hu⟩
+
+end VI
+
+/-! ### interval lists -/
+namespace FSet
+open VI
+
+variable (α)
+
+/-- the set denoted by a list of intervals -/
+def SetMem (s : List VI) (x : α) : Prop := ∃ I ∈ s, I.Mem x
+
+/-- every point of `I` lies strictly below every point of `J` -/
+def Sep (I J : VI) : Prop := ∀ x y : α, I.Mem x → J.Mem y → x < y
+
+/-- the part of the normal form used by the sweeps: non-empty intervals, increasing and pairwise disjoint -/
+def NFw (s : List VI) : Prop := (∀ I ∈ s, ∃ y : α, I.Mem y) ∧ s.Pairwise (Sep α)
+
+variable {α}
+
+theorem setMem_nil (x : α) : SetMem α [] x ↔ False := by simp [SetMem]
+theorem setMem_cons (I : VI) (s : List VI) (x : α) : SetMem α (I :: s) x ↔ I.Mem x ∨ SetMem α s x := by
+  simp [SetMem]
+theorem setMem_reverse (s : List VI) (x : α) : SetMem α s.reverse x ↔ SetMem α s x := by
+  simp [SetMem]
+
+theorem lowerOK_mono (e : EP) (o : Bool) (x y : α) (h : lowerOK e o x) (hxy : x ≤ y) : lowerOK e o y := by
+  rcases e with _ | q | _
+  · trivial
+  · simp only [lowerOK] at h ⊢
+    cases o <;> simp only [Bool.false_eq_true, if_false, if_true] at h ⊢ <;> linarith
+  · exact h
+
+/-- if the upper bound of `I1` is not above that of `I2`, `I1` meets nothing that lies entirely above `I2` -/
+theorem no_meet (I1 I2 J : VI) (hu : ∀ x : α, upperOK I1.upper I1.bOpen x → upperOK I2.upper I2.bOpen x)
+    (hne : ∃ y : α, I2.Mem y) (hsep : Sep α I2 J) (x : α) : ¬ (I1.Mem x ∧ J.Mem x) := by
+  rintro ⟨h1, hJ⟩
+  have hux := hu x h1.2
+  by_cases hl : lowerOK I2.lower I2.aOpen x
+  · exact lt_irrefl x (hsep x x ⟨hl, hux⟩ hJ)
+  · obtain ⟨y, hy⟩ := hne
+    have hyx : y < x := hsep y x hy hJ
+    exact hl (lowerOK_mono _ _ y x hy.1 hyx.le)
+
+theorem no_meet_list (I1 I2 : VI) (r : List VI) (hu : ∀ x : α, upperOK I1.upper I1.bOpen x → upperOK I2.upper I2.bOpen x)
+    (hne : ∃ y : α, I2.Mem y) (hsep : ∀ J ∈ r, Sep α I2 J) (x : α) : ¬ (I1.Mem x ∧ SetMem α r x) := by
+  rintro ⟨h1, J, hJ, hm⟩
+  exact no_meet I1 I2 J hu hne (hsep J hJ) x ⟨h1, hm⟩
+
+private theorem advL_none {A i1 i2 s1 s2 : Prop} (hp : ¬ (i1 ∧ i2)) (h : ¬ (i1 ∧ s2)) :
+    (A ∨ (s1 ∧ (i2 ∨ s2))) ↔ (A ∨ ((i1 ∨ s1) ∧ (i2 ∨ s2))) := by tauto
+private theorem advL_some {A p i1 i2 s1 s2 : Prop} (hp : p ↔ i1 ∧ i2) (h : ¬ (i1 ∧ s2)) :
+    ((p ∨ A) ∨ (s1 ∧ (i2 ∨ s2))) ↔ (A ∨ ((i1 ∨ s1) ∧ (i2 ∨ s2))) := by tauto
+private theorem advB_some {A p i1 i2 s1 s2 : Prop} (hp : p ↔ i1 ∧ i2) (h : ¬ (i1 ∧ s2)) (h' : ¬ (i2 ∧ s1)) :
+    ((p ∨ A) ∨ (s1 ∧ s2)) ↔ (A ∨ ((i1 ∨ s1) ∧ (i2 ∨ s2))) := by tauto
+private theorem advR_some {A p i1 i2 s1 s2 : Prop} (hp : p ↔ i1 ∧ i2) (h' : ¬ (i2 ∧ s1)) :
+    ((p ∨ A) ∨ ((i1 ∨ s1) ∧ s2)) ↔ (A ∨ ((i1 ∨ s1) ∧ (i2 ∨ s2))) := by tauto
+private theorem advR_none {A i1 i2 s1 s2 : Prop} (hp : ¬ (i1 ∧ i2)) (h' : ¬ (i2 ∧ s1)) :
+    (A ∨ ((i1 ∨ s1) ∧ s2)) ↔ (A ∨ ((i1 ∨ s1) ∧ (i2 ∨ s2))) := by tauto
+
+private theorem sgn_cases (z : Int) : (sgnI z = -1 → z < 0) ∧ (sgnI z = 0 → z = 0) ∧ (sgnI z = 1 → z > 0) := by
+  unfold sgnI; refine ⟨fun h => ?_, fun h => ?_, fun h => ?_⟩ <;> split_ifs at h <;> omega
+
+/-- invariant of the intersection sweep -/
+theorem intersectLoop_sem : ∀ (fuel : Nat) (s1 s2 acc : List VI) (a1 a2 : Bool),
+    NFw α s1 → NFw α s2 → s1.length + s2.length ≤ fuel →
+    ∀ x : α, SetMem α (intersectLoop fuel s1 s2 acc a1 a2).1 x ↔ (SetMem α acc x ∨ (SetMem α s1 x ∧ SetMem α s2 x)) := by
+  intro fuel
+  induction fuel with
+  | zero =>
+    intro s1 s2 acc a1 a2 _ _ hlen x
+    have e1 : s1 = [] := List.length_eq_zero_iff.1 (by omega)
+    have e2 : s2 = [] := List.length_eq_zero_iff.1 (by omega)
+    subst e1; subst e2
+    simp [intersectLoop, setMem_reverse, setMem_nil]
+  | succ f ih =>
+    intro s1 s2 acc a1 a2 n1 n2 hlen x
+    cases s1 with
+    | nil =>
+      cases s2 with
+      | nil => simp [intersectLoop, setMem_reverse, setMem_nil]
+      | cons I2 r2 => simp [intersectLoop, setMem_reverse, setMem_nil]
+    | cons I1 r1 =>
+      cases s2 with
+      | nil => simp [intersectLoop, setMem_reverse, setMem_nil]
+      | cons I2 r2 =>
+        obtain ⟨⟨hP, hnone⟩, hsg⟩ := C13_cmp (α := α) I1 I2
+        obtain ⟨u1, u2⟩ := cmpUpper_sem (α := α) I1 I2
+        have ne1 := n1.1 I1 List.mem_cons_self
+        have ne2 := n2.1 I2 List.mem_cons_self
+        have p1 := List.pairwise_cons.1 n1.2
+        have p2 := List.pairwise_cons.1 n2.2
+        have n1' : NFw α r1 := ⟨fun I hI => n1.1 I (List.mem_cons_of_mem _ hI), p1.2⟩
+        have n2' : NFw α r2 := ⟨fun I hI => n2.1 I (List.mem_cons_of_mem _ hI), p2.2⟩
+        simp only [List.length_cons] at hlen
+        have sc := sgn_cases (cmpUpper I1 I2)
+        -- I1 meets nothing after I2 when ub(I1) ≤ ub(I2); symmetrically for I2
+        have noL : cmpUpper I1 I2 ≤ 0 → ¬ (I1.Mem x ∧ SetMem α r2 x) :=
+          fun h => no_meet_list I1 I2 r2 (u1 h) ne2 p2.1 x
+        have noR : cmpUpper I1 I2 ≥ 0 → ¬ (I2.Mem x ∧ SetMem α r1 x) :=
+          fun h => no_meet_list I2 I1 r1 (u2 h) ne1 p1.1 x
+        rw [intersectLoop]
+        rw [setMem_cons I1 r1, setMem_cons I2 r2]
+        split <;> rename_i hc
+        all_goals (rw [hc] at hsg hnone; simp only [ICmp.ubClass] at hsg)
+        · -- ltNo
+          have hn : (cmpWithIntersect I1 I2).2 = none := hnone.1 (Or.inl rfl)
+          rw [hn] at hP
+          rw [ih r1 (I2 :: r2) acc false a2 n1' n2 (by simp only [List.length_cons]; omega) x, setMem_cons I2 r2]
+          exact advL_none (hP x) (noL (sc.1 hsg).le)
+        · -- ltWith
+          have hs : (cmpWithIntersect I1 I2).2 ≠ none := fun h => by simpa using hnone.2 h
+          obtain ⟨p, hp⟩ := Option.ne_none_iff_exists'.1 hs
+          rw [hp] at hP ⊢
+          rw [ih r1 (I2 :: r2) (p :: acc) false false n1' n2 (by simp only [List.length_cons]; omega) x, setMem_cons I2 r2, setMem_cons p acc]
+          exact advL_some (hP x) (noL (sc.1 hsg).le)
+        · -- ltWithI1
+          have hs : (cmpWithIntersect I1 I2).2 ≠ none := fun h => by simpa using hnone.2 h
+          obtain ⟨p, hp⟩ := Option.ne_none_iff_exists'.1 hs
+          rw [hp] at hP ⊢
+          rw [ih r1 (I2 :: r2) (p :: acc) a1 false n1' n2 (by simp only [List.length_cons]; omega) x, setMem_cons I2 r2, setMem_cons p acc]
+          exact advL_some (hP x) (noL (sc.1 hsg).le)
+        · -- leqWithI2
+          have hs : (cmpWithIntersect I1 I2).2 ≠ none := fun h => by simpa using hnone.2 h
+          obtain ⟨p, hp⟩ := Option.ne_none_iff_exists'.1 hs
+          rw [hp] at hP ⊢
+          rw [ih r1 r2 (p :: acc) false a2 n1' n2' (by omega) x, setMem_cons p acc]
+          exact advB_some (hP x) (noL (sc.2.1 hsg).le) (noR (sc.2.1 hsg).ge)
+        · -- eq
+          have hs : (cmpWithIntersect I1 I2).2 ≠ none := fun h => by simpa using hnone.2 h
+          obtain ⟨p, hp⟩ := Option.ne_none_iff_exists'.1 hs
+          rw [hp] at hP ⊢
+          rw [ih r1 r2 (p :: acc) a1 a2 n1' n2' (by omega) x, setMem_cons p acc]
+          exact advB_some (hP x) (noL (sc.2.1 hsg).le) (noR (sc.2.1 hsg).ge)
+        · -- geqWithI1
+          have hs : (cmpWithIntersect I1 I2).2 ≠ none := fun h => by simpa using hnone.2 h
+          obtain ⟨p, hp⟩ := Option.ne_none_iff_exists'.1 hs
+          rw [hp] at hP ⊢
+          rw [ih r1 r2 (p :: acc) a1 false n1' n2' (by omega) x, setMem_cons p acc]
+          exact advB_some (hP x) (noL (sc.2.1 hsg).le) (noR (sc.2.1 hsg).ge)
+        · -- gtWithI2
+          have hs : (cmpWithIntersect I1 I2).2 ≠ none := fun h => by simpa using hnone.2 h
+          obtain ⟨p, hp⟩ := Option.ne_none_iff_exists'.1 hs
+          rw [hp] at hP ⊢
+          rw [ih (I1 :: r1) r2 (p :: acc) false a2 n1 n2' (by simp only [List.length_cons]; omega) x, setMem_cons I1 r1, setMem_cons p acc]
+          exact advR_some (hP x) (noR (sc.2.2 hsg).le)
+        · -- gtWith
+          have hs : (cmpWithIntersect I1 I2).2 ≠ none := fun h => by simpa using hnone.2 h
+          obtain ⟨p, hp⟩ := Option.ne_none_iff_exists'.1 hs
+          rw [hp] at hP ⊢
+          rw [ih (I1 :: r1) r2 (p :: acc) false false n1 n2' (by simp only [List.length_cons]; omega) x, setMem_cons I1 r1, setMem_cons p acc]
+          exact advR_some (hP x) (noR (sc.2.2 hsg).le)
+        · -- gtNo
+          have hn : (cmpWithIntersect I1 I2).2 = none := hnone.1 (Or.inr rfl)
+          rw [hn] at hP
+          rw [ih (I1 :: r1) r2 acc a1 false n1 n2' (by simp only [List.length_cons]; omega) x, setMem_cons I1 r1]
+          exact advR_none (hP x) (noR (sc.2.2 hsg).le)
+
+/-- Intersection of feasibility sets contains exactly the numbers contained in both operands. -/
+theorem C13_intersect (s1 s2 : List VI) (n1 : NFw α s1) (n2 : NFw α s2) (x : α) :
+    SetMem α (intersect s1 s2).1 x ↔ (SetMem α s1 x ∧ SetMem α s2 x) := by
+  unfold intersect
+  by_cases he : (s1.isEmpty || s2.isEmpty) = true
+  · rw [if_pos he]
+    simp only [Bool.or_eq_true, List.isEmpty_iff] at he
+    rcases he with he | he <;> subst he <;> simp [setMem_nil]
+  · rw [if_neg he]
+    simp only
+    rw [intersectLoop_sem _ s1 s2 [] true true n1 n2 (by omega) x]
+    simp [setMem_nil]
+
+theorem cmp_lower_ok (a : EP) (o : Bool) (q : Rat) :
+    (¬ (o = true ∧ EP.cmp a (.fin q) ≥ 0) ∧ ¬ (o = false ∧ EP.cmp a (.fin q) > 0)) ↔ lowerOK a o ((q : ℚ) : α) := by
+  rcases a with _ | a | _
+  · simp [EP.cmp, lowerOK]
+  · simp only [EP.cmp_fin, lowerOK]
+    have h1 := cmpQ_lt a q
+    have h2 := cmpQ_gt a q
+    have h3 := cmpQ_eq a q
+    have c1 : ((a : α) < (q : α)) ↔ a < q := Rat.cast_lt
+    have c2 : ((a : α) ≤ (q : α)) ↔ a ≤ q := Rat.cast_le
+    cases o <;> simp only [Bool.false_eq_true, if_false, if_true, false_and, not_false_eq_true, true_and, and_true, c1, c2]
+    · rw [h2]; exact not_lt
+    · rw [← h1]; omega
+  · cases o <;> simp [EP.cmp, lowerOK]
+
+theorem cmp_upper_ok (b : EP) (o : Bool) (q : Rat) :
+    (¬ (o = true ∧ EP.cmp (.fin q) b ≥ 0) ∧ ¬ (o = false ∧ EP.cmp (.fin q) b > 0)) ↔ upperOK b o ((q : ℚ) : α) := by
+  rcases b with _ | b | _
+  · cases o <;> simp [EP.cmp, upperOK]
+  · simp only [EP.cmp_fin, upperOK]
+    have h1 := cmpQ_lt q b
+    have h2 := cmpQ_gt q b
+    have c1 : ((q : α) < (b : α)) ↔ q < b := Rat.cast_lt
+    have c2 : ((q : α) ≤ (b : α)) ↔ q ≤ b := Rat.cast_le
+    cases o <;> simp only [Bool.false_eq_true, if_false, if_true, false_and, not_false_eq_true, true_and, and_true, c1, c2]
+    · rw [h2]; exact not_lt
+    · rw [← h1]; omega
+  · simp [EP.cmp, upperOK]
+
+/-- membership test of one interval (`lp_interval_contains`, via `lp_interval_cmp_value`) for a finite value -/
+theorem C13_contains_interval (I : VI) (q : Rat)
+    (hw : I.isPoint = true → (∃ a, I.a = .fin a) ∧ I.aOpen = false ∧ I.bOpen = false) :
+    VI.contains I (.fin q) = true ↔ I.Mem ((q : ℚ) : α) := by
+  unfold VI.contains VI.cmpValue VI.Mem VI.lower VI.upper
+  by_cases hp : I.isPoint = true
+  · obtain ⟨⟨a, ha⟩, ho1, ho2⟩ := hw hp
+    simp only [hp, if_true, ha, ho1, ho2, EP.cmp_fin, decide_eq_true_eq, cmpQ_eq, lowerOK, upperOK,
+      Bool.false_eq_true, if_false]
+    have c2 : ((a : α) ≤ (q : α)) ↔ a ≤ q := Rat.cast_le
+    have c3 : ((q : α) ≤ (a : α)) ↔ q ≤ a := Rat.cast_le
+    rw [c2, c3]
+    exact ⟨fun h => by subst h; exact ⟨le_refl _, le_refl _⟩, fun h => le_antisymm h.1 h.2⟩
+  · have hp' : I.isPoint = false := by simpa using hp
+    simp only [hp', Bool.false_eq_true, if_false, decide_eq_true_eq]
+    rw [← cmp_lower_ok (α := α) I.a I.aOpen q, ← cmp_upper_ok (α := α) I.b I.bOpen q]
+    cases hao : I.aOpen <;> cases hbo : I.bOpen <;>
+      simp only [Bool.false_eq_true, false_and, true_and, not_false_eq_true, not_true_eq_false, and_true, ge_iff_le, gt_iff_lt, not_le, not_lt] <;>
+      split_ifs <;> simp_all <;> omega
+
+/-! non-vacuity -/
+example : NFw ℚ [VI.mk' .ninf true (.fin 0) false, VI.point (.fin 1)] := by
+  refine ⟨?_, ?_⟩
+  · intro I hI
+    simp only [List.mem_cons, List.mem_nil_iff, or_false] at hI
+    rcases hI with rfl | rfl
+    · exact ⟨-1, by simp [VI.Mem, VI.mk', VI.lower, VI.upper, lowerOK, upperOK]⟩
+    · exact ⟨1, by simp [VI.Mem, VI.point, VI.lower, VI.upper, lowerOK, upperOK]⟩
+  · refine List.pairwise_cons.2 ⟨?_, List.pairwise_cons.2 ⟨fun _ h => absurd h (by simp), List.Pairwise.nil⟩⟩
+    intro J hJ x y hx hy
+    simp only [List.mem_cons, List.mem_nil_iff, or_false] at hJ
+    subst hJ
+    simp [VI.Mem, VI.mk', VI.point, VI.lower, VI.upper, lowerOK, upperOK] at hx hy
+    linarith [hx, hy.1]
+
+end FSet
 end LP
